@@ -217,6 +217,41 @@ def prop_beliefmdp(case, ctx):
     ctx.nontrivial(branching and len(rb) >= 2)
 
 
+@st.composite
+def raw_reward_cases(draw, tier="quick"):
+    """POMDPs whose absorbing states keep arbitrary successors - also ones that nothing else reaches, i.e. outside the
+    inferred state list. Only the belief reward is asserted there: it is a plain expectation over the model's functions."""
+    spec = draw(pomdp_specs(min_states=3, max_states=5, absorbing_kinds=("n", "n", "abs", "abs"), normalise=False))
+    return {"pomdp": spec, "belief": draw(belief_weights(spec["n"])), "seq": []}
+
+
+def prop_raw_reward(case, ctx):
+    from msdm.core.pomdp import BeliefMDP
+    from msdm.core.pomdp.tabularpomdp import Belief
+    spec = case["pomdp"]
+    pomdp, view = build_pomdp(spec)
+    ref = RefPOMDP(spec)
+    sl = list(pomdp.state_list)
+    bm = BeliefMDP(pomdp)
+    w = {view.sidx[s]: case["belief"][view.sidx[s]] for s in sl}
+    if not any(w.values()):
+        w[view.sidx[sl[0]]] = 1
+    tot = sum(w.values())
+    rb = {i: F(x, tot) for i, x in w.items() if x > 0}
+    b = Belief(tuple(sl), tuple(float(rb.get(view.sidx[s], F(0))) for s in sl))
+    outside = False
+    for a in range(ref.m):
+        r = ctx.call("C07.beliefmdp.reward_raises", bm.reward, b, view.A[a], None)
+        want = float(ref.expected_reward(rb, a))
+        ctx.check(abs(r - want) <= 1e-9, "C07.beliefmdp.reward", lambda: f"a={a}: {r} expected {want} (belief {b})")
+        for s in rb:
+            if spec["absorbing"][s] and any(q > 0 and view.S[ns] not in sl for ns, q in ref.T[s][a].items()):
+                outside = True
+    if outside:
+        ctx.event("belief_mass_on_absorbing_state_with_successor_outside_state_list")
+    ctx.nontrivial(outside)
+
+
 def prop_track(case, ctx):
     """ValueBasedTabularPOMDPPolicy.next_agentstate tracks the Bayes posterior along a sequence."""
     from msdm.core.pomdp.alphavectorpolicy import AlphaVectorPolicy
@@ -263,6 +298,8 @@ PROPS = [
          doc="state_estimator / predictive_observation (dict and vec) and observation_matrix vs exact Bayes"),
     Prop("beliefmdp", lambda tier: cases(tier), prop_beliefmdp, quick=1500, thorough=90000,
          doc="BeliefMDP transitions, reward, absorbing test, initial belief"),
+    Prop("beliefmdp_reward_raw", lambda tier: raw_reward_cases(tier), prop_raw_reward, quick=600, thorough=36000,
+         doc="BeliefMDP.reward on POMDPs whose absorbing states have successors outside the inferred state list"),
     Prop("track", lambda tier: cases(tier), prop_track, quick=1500, thorough=90000,
          doc="value-based policy agent state follows the Bayes posterior along action/observation sequences"),
 ]
